@@ -589,6 +589,72 @@ func gatedSendFromDisconnectHandler() []int64 {
 	return []int64{0, int64(during), int64(after), cancelled}
 }
 
+// scenario 16 (C11, C02, C06; finding F1): client C's request times out right after client A completed an exchange, and
+// the application reacts to the timeout by sending a request to A from its cancel handler.  Nothing of that may touch
+// C's (now empty) queue: the new request goes to A, once, and nothing crashes.
+func gatedTimeoutThenSendToOther() []int64 {
+	installIDGen()
+	fake := fakews.NewServer()
+	disp := ocppj.NewDefaultServerDispatcher(ocppj.NewFIFOQueueMap(0))
+	disp.SetTimeout(120 * time.Millisecond)
+	srv := ocppj.NewServer(fake, disp, nil, core16.Profile)
+	srv.SetResponseHandler(func(c ws_Channel, r ocpp.Response, id string) {})
+	srv.SetErrorHandler(func(c ws_Channel, e *ocpp.Error, d interface{}) {})
+	srv.SetRequestHandler(func(c ws_Channel, r ocpp.Request, id, action string) {})
+	var mu sync.Mutex
+	cancelled := []string{}
+	srv.SetCanceledRequestHandler(func(clientID string, requestID string, r ocpp.Request, e *ocpp.Error) {
+		mu.Lock()
+		cancelled = append(cancelled, requestID)
+		first := len(cancelled) == 1
+		mu.Unlock()
+		if first && clientID == "C" {
+			setNextID("63")
+			_ = srv.SendRequest("A", core16.NewDataTransferRequest("a2"))
+		}
+	})
+	go srv.Start(0, "/{ws}")
+	if !waitFor(2*time.Second, disp.IsRunning) {
+		return []int64{-2}
+	}
+	fake.Connect("A")
+	fake.Connect("C")
+	wrote := func(to string, id int64) func() bool {
+		return func() bool {
+			return fake.CountWritten(func(t string, d []byte) bool { return t == to && callID(d) == id }) > 0
+		}
+	}
+	setNextID("61")
+	if err := srv.SendRequest("C", core16.NewDataTransferRequest("c1")); err != nil {
+		return []int64{-3}
+	}
+	if !waitFor(2*time.Second, wrote("C", 61)) {
+		return []int64{-8}
+	}
+	setNextID("62")
+	if err := srv.SendRequest("A", core16.NewDataTransferRequest("a1")); err != nil {
+		return []int64{-3}
+	}
+	if !waitFor(2*time.Second, wrote("A", 62)) {
+		return []int64{-8}
+	}
+	_ = fake.Inject("A", []byte(`[3,"62",{"status":"Accepted"}]`)) // A is done: the pump's last event concerns A
+	// C's request 61 now times out; the cancel handler sends 63 to A
+	if !waitFor(3*time.Second, wrote("A", 63)) {
+		return []int64{0, 0}
+	}
+	time.Sleep(40 * time.Millisecond)
+	nA := fake.CountWritten(func(t string, d []byte) bool { return t == "A" && callID(d) == 63 })
+	nC := fake.CountWritten(func(t string, d []byte) bool { return t == "C" && callID(d) != 61 })
+	within(3*time.Second, srv.Stop)
+	mu.Lock()
+	defer mu.Unlock()
+	if nA == 1 && nC == 0 && len(cancelled) >= 1 && cancelled[0] == "61" {
+		return []int64{1, 0}
+	}
+	return []int64{0, int64(nA), int64(nC), int64(len(cancelled))}
+}
+
 func gatedEval(in []int64) []int64 {
 	switch in[0] {
 	case 7:
@@ -607,6 +673,8 @@ func gatedEval(in []int64) []int64 {
 		return gatedServerBurst()
 	case 14:
 		return gatedSendFromDisconnectHandler()
+	case 16:
+		return gatedTimeoutThenSendToOther()
 	}
 	return []int64{-1}
 }
